@@ -52,7 +52,10 @@ func (g *fastGenerator) genUnmarshalMethod() {
 		g.unmarshalField(field, g.message, true, required)
 	}
 	g.P(`default:`)
-	if len(g.message.Extensions) > 0 {
+	// extension ranges of the message itself, not extensions of other messages declared in its scope
+	// (g.message.Extensions): a proto3 message may declare custom options in a nested extend block
+	hasExtensionRanges := g.message.Desc.ExtensionRanges().Len() > 0
+	if hasExtensionRanges {
 		c := []string{}
 		eranges := g.message.Desc.ExtensionRanges()
 		for e := 0; e < eranges.Len(); e++ {
@@ -98,7 +101,7 @@ func (g *fastGenerator) genUnmarshalMethod() {
 	g.P(`x.unknownFields = append(x.unknownFields, dAtA[iNdEx:iNdEx+skippy]...)`)
 	g.P("}")
 	g.P(`iNdEx += skippy`)
-	if len(g.message.Extensions) > 0 {
+	if hasExtensionRanges {
 		g.P(`}`)
 	}
 	g.P(`}`)
